@@ -29,7 +29,7 @@ WellFormedCall(e) ==
     /\ \A j \in DOMAIN e.slots : {"p", "k", "d"} \subseteq DOMAIN e.slots[j] /\ Len(e.slots[j].p) >= 2
     /\ NoDupPaths(e.slots)
 WellFormedExit(e) ==
-    /\ {"id", "tr", "slots"} \subseteq Fields(e)
+    /\ {"id", "tr", "slots", "exc", "expect", "forms"} \subseteq Fields(e)
     /\ \A j \in DOMAIN e.slots : {"p", "d", "h"} \subseteq DOMAIN e.slots[j]
     /\ NoDupPaths(e.slots)
 
@@ -44,6 +44,10 @@ CallVerdict(e) ==
     ELSE IF e.tr = tr /\ \E p \in Paths(e.slots) \cap DOMAIN snap : FnOf(e.slots, "d")[p] # snap[p]
          THEN "PreDiffersFromLastPost"      \* the shared objects changed between two calls
     ELSE "ok"
+
+CallFormRefused(e) ==
+    /\ e.ev = "Raise" /\ e.exc = "TypeError" /\ e.expect = "return"
+    /\ SeqToSet(e.forms) \cap {"call:positional", "call:keyword"} # {}
 
 ExitWellPlaced(e) == WellFormedExit(e) /\ pc = "in" /\ e.tr = tr /\ Paths(e.slots) = DOMAIN snap
 
@@ -79,6 +83,9 @@ TraceNext ==
             IF ~ExitWellPlaced(e) THEN
                 /\ PrintT(<<"REJECT", e.id, "Malformed">>) /\ UNCHANGED <<vars, tr>>
             ELSE LET ch == ChangedIdx(e) IN
+                \* guard on the frozen signature table (not part of the ownership obligation): a call that hands the
+                \* arguments over in the published order / by the published names is not refused with a TypeError
+                /\ IF CallFormRefused(e) THEN PrintT(<<"REJECT", e.id, "PublishedCallFormRefused">>) ELSE TRUE
                 \* one short line per changed slot (TLC wraps long tuples): <<"REJECT", id, mechanism, slot index>>
                 /\ \A j \in ch : PrintT(<<"REJECT", e.id, MechanismAt(e, j), j>>)
                 /\ snap' = FnOf(e.slots, "d")          \* resynchronise: later calls are judged on what they got
